@@ -111,7 +111,9 @@ func TestCloudStageHistories(t *testing.T) {
 			}
 		}
 		waitDeliveries := func() {
-			if !sink.WaitUntil(30*time.Second, func(m []*gostatsd.MetricMap, e []*gostatsd.Event) bool { return len(m) >= expectMaps && len(e) >= expectEvents }) {
+			if !sink.WaitUntil(30*time.Second, func(m []*gostatsd.MetricMap, e []*gostatsd.Event) bool {
+				return len(m) >= expectMaps && len(e) >= expectEvents
+			}) {
 				m, e := sink.Counts()
 				fail("C11:never-delivered", "downstream received %d maps / %d events, expected %d / %d (waited 30s)", m, e, expectMaps, expectEvents)
 			}
